@@ -140,8 +140,13 @@ def sh(cmd, cwd, env=None, log=None):
 
 
 def confirm(sid):
-    pid, k = sid.split('-'); wt = '/tmp/wt-' + pid; s = SEEDS[sid]
+    pid, k = sid.split('-'); wt = '/tmp/wt-' + pid
     src = '%s/seeded/%s' % (wt, k); out = '%s/seeded/%s' % (V, sid); os.makedirs(out, exist_ok=True)
+    if sid in SEEDS: s = SEEDS[sid]
+    else:   # wave 11 on: the agent's meta.json names the demonstration (an integration test file of an existing crate)
+        import shlex
+        am0 = json.load(open(src + '/meta.json'))
+        s = dict(f=am0['demo_file'], dest=am0['demo_dest'], mod=None, cmd=shlex.split(am0['demo_cmd']))
     env = dict(os.environ, CARGO_TARGET_DIR=wt + '/target', CARGO_NET_OFFLINE='true')
     def clean():
         sh(['git', 'checkout', '-q', '--', '.'], wt); sh(['git', 'clean', '-fdq', '--', 'contracts', 'packages'], wt)
